@@ -60,9 +60,9 @@ theorem C18_anon_shape (tbl : List TemplateSig) (va : Option Expr) (m : Desugar.
     (h : rmAnonE tbl va (.anon m label id ps ss names par) = .ok res) :
     ∃ t plan seq, lookupT tbl id = some t ∧ inputPlan m t.inputs names (exprsLen ss) = .ok plan ∧
       res.1 = [.block m (Stmts.ofList seq)] ∧
-      directSubs seq = (id ++ "@" ++ label, none, Op.var) ::
-        plan.map (fun p => (id ++ "@" ++ label, some p.1, p.2.2)) ∧
-      res.2.2 = outValue va m (id ++ "@" ++ label) t.outputs := by
+      directSubs seq = (id ++ "#" ++ label, none, Op.var) ::
+        plan.map (fun p => (id ++ "#" ++ label, some p.1, p.2.2)) ∧
+      res.2.2 = outValue va m (id ++ "#" ++ label) t.outputs := by
   unfold rmAnonE at h
   exact anonBody_shape tbl va m label id ps names par _ _ res (rmAnonEs_blocks tbl va ss) h
 
